@@ -556,6 +556,7 @@ package kcp
 //@        && ((old(le32(in, 0)) % old(dec.shardSize) < old(dec.dataShards)) == (old(le16(in, 4)) == 241))
 //@        ==> !dec.shouldTune && dec.dataShards == old(dec.dataShards) && dec.parityShards == old(dec.parityShards) && dec.shardSize == old(dec.shardSize) && dec.paws == old(dec.paws)
 //@   ensures @C07 [emits-only-for-a-complete-group-with-missing-data] len(recovered) > 0 ==> len(pkts) >= dec.dataShards && numDataShard != dec.dataShards
+//@   ensures @C16 [tuning-ends-only-with-a-valid-period] !(autoDS > 0 && autoPS > 0 && autoDS + autoPS < 256) ==> dec.shouldTune && recovered == nil
 //@   ensures @C16 [retune-restarts-group-tracking] dec.shardSize != old(dec.shardSize) ==> dec.newestShardId == old(le32(in, 0)) / dec.shardSize
 //@   ensures @C05 [newest-group-tracking] len(pkts) >= 0 ==> itimediff(uint32(shardId * uint32(dec.shardSize)), uint32(dec.newestShardId * uint32(dec.shardSize))) <= 0
 //@   loop 3 invariant forall j int :: 0 <= j && j <= rangeindex ==> shards[j] == nil
